@@ -7,7 +7,7 @@ from rv.props import common as C
 from rv import oracles as O, gen
 
 LEVEL = "exploration"
-RULE = ("cbldm on n = 1..14 (thorough 16) non-negative integers (zeros, repeats, all-ones, ties, random up to 500), cardinality bound d in {1,2,3,n,default}, list / array / dict / names presentations; "
+RULE = ("bounded-exhaustive: every multiset of 1..7 (thorough 8) items over 0..4 x bounds {1,2,3,default} (completion reported as grid_exhaustive_complete_shards); then cbldm on n = 1..14 (thorough 16) non-negative integers (zeros, repeats, all-ones, ties, random up to 500), cardinality bound d in {1,2,3,n,default}, list / array / dict / names presentations; "
         "checks: two bins holding every name exactly once, |#A-#B| <= d, |sum A - sum B| equals the optimum under d; non-trivial = constrained optimum differs from the unconstrained one, "
         "or n >= 6 with d = 1; distinct on (d, sorted values)")
 ASSUMPTIONS = ["no time limit", "O4 enumerates achievable subset sums per cardinality"]
@@ -17,7 +17,7 @@ FLOORS = {"quick": {"distinct_nontrivial": 3000}, "thorough": {"distinct_nontriv
 def plan(tier, seed):
     n = 16 if tier == "quick" else 64
     b = 30 if tier == "quick" else 90
-    return [{"seed": seed * 1000 + i, "shard": i, "budget_s": b, "nmax": 14 if tier == "quick" else 16, "watchdog_s": b * 6 + 200} for i in range(n)]
+    return [{"seed": seed * 1000 + i, "shard": i, "nshards": n, "budget_s": b, "nmax": 14 if tier == "quick" else 16, "watchdog_s": b * 6 + 200} for i in range(n)]
 
 
 def judge(case, ctx):
@@ -91,6 +91,17 @@ def run_shard(spec, rng, ctx):
     probes = standard_probes().start()
     end = C.budget(spec)
     try:
+        # bounded-exhaustive small scope: every multiset of 1..7 (thorough 8) items over 0..4 x every bound in {1,2,3,default} (at most 30% of the budget)
+        grid_end = C.now() + 0.3 * float(spec.get("budget_s", 60))
+        complete = True
+        for ms in C.sharded(C.multisets(range(0, 5), 8 if spec.get("tier") == "thorough" else 7), spec):
+            if C.now() > grid_end:
+                complete = False
+                break
+            for d in (1, 2, 3, None):
+                judge({"kind": "partition", "alg": "cbldm", "k": 2, "values": list(ms), "cls": "grid_exhaustive", "cbldm_d": d, "pres": "list", "pres_seed": 0}, ctx)
+            ctx.counters["grid_exhaustive_instances"] += 1
+        ctx.counters["grid_exhaustive_complete_shards"] += int(complete)
         while C.now() < end:
             judge(draw(rng, spec["nmax"]), ctx)
     finally:
